@@ -359,7 +359,15 @@ func (tr *fnTrans) sliceOp(in *ssa.Slice) {
 		hi := opt(in.High, slLen(x.S))
 		mx := opt(in.Max, slCap(x.S))
 		tr.safe("slice", and(app("<=", "0", lo), app("<=", lo, hi), app("<=", hi, mx), app("<=", mx, slCap(x.S))), in.Pos())
-		tr.setVal(in, x.T, mkSlice(slArr(x.S), app("+", slOff(x.S), lo), app("-", hi, lo), app("-", mx, lo)))
+		nt := tr.constVal(in, x.T, mkSlice(slArr(x.S), app("+", slOff(x.S), lo), app("-", hi, lo), app("-", mx, lo)))
+		// elements of the sub-slice are elements of the original (consequence of the definition of at_<sort>)
+		hn := "A_" + x.T.Elem.Tag()
+		tr.touchHeap(hn, x.T.Elem, true)
+		at := "at_" + x.T.Elem.Tag()
+		tr.hyp(fmt.Sprintf("(forall ((h!s %s) (j!s Int)) (! (= (%s h!s %s j!s) (%s h!s %s (+ %s j!s))) :pattern ((%s h!s %s j!s))))",
+			heapSortName(tr.maps[hn]), at, nt.S, at, x.S, lo, at, nt.S))
+		tr.hyp(fmt.Sprintf("(forall ((h!s %s) (k!s Int)) (! (=> (and (<= %s k!s) (< k!s %s)) (= (%s h!s %s (- k!s %s)) (%s h!s %s k!s))) :pattern ((%s h!s %s k!s))))",
+			heapSortName(tr.maps[hn]), lo, hi, at, nt.S, lo, at, x.S, at, x.S))
 	case *types.Pointer:
 		p := tr.val(in.X)
 		n := intLit(xt.Elem().Underlying().(*types.Array).Len())
@@ -573,6 +581,7 @@ func (tr *fnTrans) typeAssert(in *ssa.TypeAssert) {
 			return
 		}
 	case x.T == SNode:
+		tr.uses["nodekinds"] = true
 		if types.IsInterface(at) {
 			pred := map[string]string{"node.NamedNode": "isNamed", "node.Element": "isElement", "node.Namespace": "isNS", "node.Attribute": "isAttr",
 				"node.CharData": "isText", "node.Comment": "isComment", "node.ProcInst": "isPI", "node.Root": "isAnyNode", "node.Node": "isAnyNode"}[atName]
